@@ -389,6 +389,11 @@ class DataInterp(LibInterp):
     def _json(self, args, node):
         return self.canon(args[0])
 
+    def host_function(self, name, args, e):
+        if name.startswith('statistics.') and len(args) == 1:
+            return self.method_hook(('module', 'statistics'), name.split('.', 1)[1], args, e)
+        return super().host_function(name, args, e)
+
     def method_hook(self, base, m, args, e):
         if isinstance(base, tuple) and base and base[0] == 'module' and base[1] in ('statistics', 'math'):
             import statistics
